@@ -944,9 +944,24 @@ class Variable(CanBehaveLikeAVariable[T]):
         else:
             yield from self._yield_from_cache_or_instantiate_new_values_(sources)
 
-    def _generate_combinations_for_child_vars_values_(self, sources: Optional[Dict[int, HashedValue]] = None):
-        kwargs_generators = {k: v._evaluate__(sources) for k, v in self._child_vars_.items()}
-        yield from generate_combinations(kwargs_generators)
+    def _generate_combinations_for_child_vars_values_(self, sources: Optional[Dict[int, HashedValue]] = None,
+                                                      names: Optional[List[str]] = None):
+        """
+        Evaluate the arguments one after the other, each under the bindings made by the previous ones, so that
+        arguments over the same (still unbound) variable stay correlated.
+        """
+        sources = sources or {}
+        if names is None:
+            names = list(self._child_vars_.keys())
+        if not names:
+            yield {}
+            return
+        name, remaining_names = names[0], names[1:]
+        for value in self._child_vars_[name]._evaluate__(copy(sources)):
+            bound_values = copy(sources)
+            bound_values.update(value)
+            for remaining in self._generate_combinations_for_child_vars_values_(bound_values, remaining_names):
+                yield {name: value, **remaining}
 
     def _yield_from_cache_or_instantiate_new_values_(self, sources: Optional[Dict[int, HashedValue]] = None,
                                                      kwargs: Dict[str, Dict[int, HashedValue]] = None):
